@@ -321,6 +321,34 @@ func genC06() *rapid.Generator[*Spec] {
 		if key == m.K(s.Injectors[k].Out) {
 			pos = "root"
 		}
+		if x.rarely(3, "shadowparam") {
+			// a later injector gets a parameter spelled like a provider function of
+			// its own package that its build list names: the list then names the
+			// parameter; the function itself (which an earlier injector uses as
+			// a provider) is not in this injector's build list at all
+			for _, a := range s.Injectors[k].Args {
+				if a.Item >= 0 && s.Items[a.Item].Kind == "func" && s.Items[a.Item].Pkg == 0 {
+					warm := s.Injectors[k]
+					warm.Name = x.fresh("InjectWarm")
+					warm.Args = append([]Ref(nil), warm.Args...)
+					warm.Params = append([]Param(nil), warm.Params...)
+					warm.ResNames = nil
+					s.Injectors[k].Params = append(append([]Param(nil), s.Injectors[k].Params...), Param{Name: s.Items[a.Item].Name, T: Named(addFreshStruct(s, 0, x.fresh("Other")))})
+					s.Injectors[k].Variadic = false
+					s.Injectors[k].ResNames = nil
+					for pi := range s.Injectors[k].Params {
+						if s.Injectors[k].Params[pi].Name == "" {
+							s.Injectors[k].Params[pi].Name = fmt.Sprintf("zzq%d", pi)
+						}
+					}
+					// the unshadowed twin comes first in the file
+					s.Injectors = append([]Injector{warm}, s.Injectors...)
+					s.Note = fmt.Sprintf("C06 shadowparam pos=%s", pos)
+					refreshPlan(s)
+					return s
+				}
+			}
+		}
 		mut := x.pick([]string{"remove", "remove", "remove", "nearmiss", "nearmiss", "alias", "remove-one", "remove-one", "twin-type", "twin-type", "starfield", "starfield", "starfield", "starfield"}, "mut")
 		if mut == "starfield" {
 			// a struct built by wire.Struct(new(S), "*") gains a field whose type
